@@ -52,6 +52,9 @@ pub struct T2 {
     /// subject's output parsed for the peer: index of the next unseen frame of the subject in mon.frames
     pub peer_seen: usize,
     pub events: u64,
+    /// server subject: the application takes new requests (`poll_accept`); when false the connection is only driven
+    /// (`poll_closed`) and requests pile up in h2's pending-accept queue
+    pub accept_enabled: bool,
 }
 
 #[derive(Clone, Debug)]
@@ -112,6 +115,7 @@ impl T2 {
             peer_reads: true,
             peer_seen: 0,
             events: 0,
+            accept_enabled: true,
         };
         let w = waker_of(&t.conn_flag);
         let mut cx = Context::from_waker(&w);
@@ -235,8 +239,14 @@ impl T2 {
         let mut conn = std::mem::replace(&mut self.conn, Conn::Gone);
         let mut done: Option<String> = None;
         let mut new_accepts: Vec<(Request<RecvStream>, server::SendResponse<Bytes>)> = vec![];
+        let accept_enabled = self.accept_enabled;
         let r = catch_unwind(AssertUnwindSafe(|| match &mut conn {
             Conn::Client(c) => match Pin::new(c).poll(&mut cx) {
+                Poll::Ready(Ok(())) => done = Some("ok".into()),
+                Poll::Ready(Err(e)) => done = Some(format!("err {}", err_text(&e))),
+                Poll::Pending => {}
+            },
+            Conn::Server(c) if !accept_enabled => match c.poll_closed(&mut cx) {
                 Poll::Ready(Ok(())) => done = Some("ok".into()),
                 Poll::Ready(Err(e)) => done = Some(format!("err {}", err_text(&e))),
                 Poll::Pending => {}
